@@ -70,7 +70,8 @@ REG.macro('ed_pathof', ['self', 'E', 'gR', 'gC', 'r_end', 'c_end'],
           f'forall(j, 0, len(gR), ed_step(self, E[{S} + j], gR[j], gC[j], '
           f'ite(j + 1 < len(gR), gR[j + 1], r_end), ite(j + 1 < len(gR), gC[j + 1], c_end)))')
 REG.macro('ed_path', ['self'],
-          'implies(notnone(self._EditDistance__edits), ed_pathof(self, self._EditDistance__edits, self.gR, self.gC, 0, 0))')
+          'implies(notnone(self._EditDistance__edits), ed_pathof(self, self._EditDistance__edits, self.gR, self.gC, 0, 0) '
+          f'and implies({M} > 0 or {N} > 0, ed_complete(self)))')
 REG.macro('ed_base', ['self'],
           'self.penalty >= 0 and notnone(self._cost_upper_bound) and self._constant_cost <= self._cost_upper_bound')
 REG.macro('ed_wf', ['self'],
